@@ -3,10 +3,10 @@
 #   demo passes on the clean tree, fails with the patch; full pinned suite with the patch == baseline pass set
 set -u
 ID=$1; M=$2
-SRC=/tmp/mut/$ID/$M
-OUT=/tmp/seedeval/${ID}_${M}
+SRC=${SEEDDIR:-/tmp/mut}/$ID/$M
+OUT=${SEEDOUT:-/tmp/seedeval}/${ID}_${M}
 mkdir -p $OUT
-WT=/tmp/seedwt/${ID}_${M}
+WT=/tmp/seedwt/${SEEDTAG:-r1}_${ID}_${M}
 rm -rf $WT; git -C /repo worktree prune; git -C /repo worktree add -q --detach $WT HEAD || exit 9
 export JAX_PLATFORMS=cpu OMP_NUM_THREADS=2 MKL_NUM_THREADS=2
 cd $WT
